@@ -242,7 +242,7 @@ def op (st : St) (toks : List String) : St × String :=
           let exact := match c32 with
             | [c] => res.all fun r => c.any fun h => h.id == r.id && h.score == r.score
             | _ => true
-          let flags := s!"n={res.length} nonempty={b2s (!res.isEmpty)} bitexact={b2s exact} cands={(c32.map List.length).foldl max 0} heap={b2s heapPath} tie={b2s tie} multi={b2s (queries.length > 1)} filt={b2s filtCut} tomb={b2s (!st.c.tomb.isEmpty)} repl={b2s st.replaced} dupq={b2s (queries.any hasDup)} trunc={b2s heapPath} model={mres.length}"
+          let flags := s!"n={res.length} nonempty={b2s (!res.isEmpty)} big={b2s (res.length > 10)} bitexact={b2s exact} cands={(c32.map List.length).foldl max 0} heap={b2s heapPath} tie={b2s tie} multi={b2s (queries.length > 1)} filt={b2s filtCut} tomb={b2s (!st.c.tomb.isEmpty)} repl={b2s st.replaced} dupq={b2s (queries.any hasDup)} trunc={b2s heapPath} model={mres.length}"
           match c32 with
           | [c] =>
             -- single query: aggregation of singletons is the identity on scores
